@@ -40,6 +40,7 @@ type hcase struct {
 	Repeat    int           `json:"repeat"`
 	Seed      int64         `json:"seed"`
 	NStart    uint32        `json:"client_nstart,omitempty"`
+	NoBW      bool          `json:"connections_without_blockwise_layer,omitempty"`
 }
 
 func sizesStr(m map[string]int) string {
@@ -76,7 +77,7 @@ func genHistory(rnd *rand.Rand, kind string, n int, id *int) []wl.Exchange {
 func runHistory(rec *vr.Rec, c hcase) {
 	var p *wl.Pair
 	if c.Kind == "udp" {
-		p = wl.NewUDPPairN(64, nil, c.NStart)
+		p = wl.NewUDPPairB(64, nil, c.NStart, !c.NoBW)
 	} else {
 		var err error
 		p, err = wl.NewTCPPair(64)
@@ -360,6 +361,22 @@ func TestRun(t *testing.T) {
 		if kind == "udp" && len(cases)%3 == 1 {
 			hc.NStart = uint32(1 + rnd.Intn(2)) // exchanges queue up behind unacknowledged ones
 			hc.Parallel = 3 + rnd.Intn(6)
+		}
+		if kind == "udp" && len(cases)%3 == 0 {
+			// connections built without a block-wise layer: only exchanges that fit one message
+			hc.NoBW = true
+			var xs []wl.Exchange
+			for _, x := range hc.Exchanges {
+				switch x.Kind {
+				case "bigget", "bigpost", "oneway-big":
+					x.Kind, x.Size = "get", 0
+					if x.Outcome == "badblock" {
+						x.Outcome = "ok"
+					}
+				}
+				xs = append(xs, x)
+			}
+			hc.Exchanges = xs
 		}
 		cases = append(cases, hc)
 	}
